@@ -133,6 +133,9 @@ func c14Record(tier string, seed int64, emit func(interface{})) {
 			}
 			return string(b) + toks[rng.Intn(len(toks))]
 		}
+		if m >= 8 && rng.Intn(8) == 0 { // text that looks like a percent escape: it is text (nobody encoded it)
+			return string(b) + []string{"%3B", "%3D", "%09", "%0A", "%25", "%2C", "95%3Bcov", "%", "%%", "%3b"}[rng.Intn(10)] + string(b[:1])
+		}
 		if m >= 8 && rng.Intn(8) == 0 { // text outside ASCII (the format is UTF-8)
 			return string(b) + []string{"é", "µ", "日本", "Ω", "ß"}[rng.Intn(5)]
 		}
